@@ -5,7 +5,8 @@ import numpy as np
 
 def get_klass_args(klass):
     import inspect
-    args, varargs, varkw, defaults = inspect.getargspec(klass.__init__)
+    args, varargs, varkw, defaults = \
+        inspect.getfullargspec(klass.__init__)[:4]
     if defaults is None:
         return []
     keyword_args = args[-len(defaults):]
@@ -32,7 +33,7 @@ def load_generic_profile_from_hdf5(loc, module, identifier,
 
         if kw in temp_keys:
             v = loc[kw][()]
-            if isinstance(v, np.ndarray) and v.dtype.type is np.string_:
+            if isinstance(v, np.ndarray) and v.dtype.type is np.bytes_:
                 from taurex.util.util import decode_string_array
                 v = decode_string_array(v)
             if kw in repl_dict:
